@@ -4,7 +4,8 @@
 //! A case line is an abstract dump model (compact text, see `Model::parse`):
 //!   roundtrip fl=<flags> pad=<0|1> T=<threads> M=<modules> R=<regions> I=<meminfo> N=<thread names>
 //!             U=<unloaded> X=<exception|-> S=<system info|-> D=<extra raw streams>
-//!             [Y=<misc info|->]   (optional trailing fields: absent = the model has no such stream)
+//!             [Y=<misc info|->] [H=<handle data|->]
+//!             (optional trailing fields: absent = the model has no such stream)
 //!
 //! `exec` serializes the model with **minidump-synth** (a foreign serializer: directory last, data
 //! interleaved with the streams) in {LE, BE} x {MemoryList, Memory64List}, reads each dump with the
@@ -366,6 +367,99 @@ impl Misc {
     }
 }
 
+/// one handle descriptor; `infos` = the object-information chain (info_type, size_of_info), which
+/// only the second kind of descriptor carries
+#[derive(Clone, Debug, PartialEq)]
+struct Handle {
+    handle: u64,
+    type_name: Option<Vec<u32>>,
+    object_name: Option<Vec<u32>>,
+    attributes: u32,
+    access: u32,
+    hcount: u32,
+    pcount: u32,
+    infos: Vec<(u32, u32)>,
+}
+
+#[derive(Clone, Debug, PartialEq)]
+struct Handles {
+    v2: bool,
+    items: Vec<Handle>,
+}
+
+fn opt_name_text(n: &Option<Vec<u32>>) -> String {
+    match n {
+        None => "~".into(),
+        Some(n) => name_text(n),
+    }
+}
+fn parse_opt_name(s: &str) -> Option<Option<Vec<u32>>> {
+    if s == "~" {
+        Some(None)
+    } else {
+        parse_name(s).map(Some)
+    }
+}
+
+impl Handles {
+    fn text(&self) -> String {
+        let items: Vec<String> = self
+            .items
+            .iter()
+            .map(|h| {
+                let infos: Vec<String> = h.infos.iter().map(|(t, s)| format!("{t}:{s}")).collect();
+                format!(
+                    "{},{},{},{},{},{},{},{}",
+                    h.handle,
+                    opt_name_text(&h.type_name),
+                    opt_name_text(&h.object_name),
+                    h.attributes,
+                    h.access,
+                    h.hcount,
+                    h.pcount,
+                    infos.join("/")
+                )
+            })
+            .collect();
+        format!("{}|{}", if self.v2 { 2 } else { 1 }, items.join(";"))
+    }
+    fn parse(s: &str) -> Option<Option<Handles>> {
+        if s == "-" {
+            return Some(None);
+        }
+        let (v, rest) = s.split_once('|')?;
+        let v2 = match v {
+            "1" => false,
+            "2" => true,
+            _ => return None,
+        };
+        let items = list(rest, |p| match p {
+            [h, tn, on, at, ga, hc, pc, infos] => Some(Handle {
+                handle: h.parse().ok()?,
+                type_name: parse_opt_name(tn)?,
+                object_name: parse_opt_name(on)?,
+                attributes: at.parse().ok()?,
+                access: ga.parse().ok()?,
+                hcount: hc.parse().ok()?,
+                pcount: pc.parse().ok()?,
+                infos: if infos.is_empty() {
+                    vec![]
+                } else {
+                    infos
+                        .split('/')
+                        .map(|t| {
+                            let (a, b) = t.split_once(':')?;
+                            Some((a.parse().ok()?, b.parse().ok()?))
+                        })
+                        .collect::<Option<Vec<_>>>()?
+                },
+            }),
+            _ => None,
+        })?;
+        Some(Some(Handles { v2, items }))
+    }
+}
+
 #[derive(Clone, Debug, PartialEq, Default)]
 struct Model {
     flags: u64,
@@ -381,6 +475,7 @@ struct Model {
     sys: Option<Sys>,
     extra: Vec<(u32, Blob)>,
     misc: Option<Misc>,
+    handles: Option<Handles>,
 }
 
 fn name_text(cs: &[u32]) -> String {
@@ -500,8 +595,9 @@ impl Model {
         };
         let d: Vec<String> = self.extra.iter().map(|(ty, b)| format!("{},{}", ty, b.text)).collect();
         let y = self.misc.as_ref().map(|y| y.text()).unwrap_or("-".into());
+        let h = self.handles.as_ref().map(|h| h.text()).unwrap_or("-".into());
         format!(
-            "roundtrip fl={} pad={} T={} M={} R={} I={} N={} U={} X={} S={} D={} Y={}",
+            "roundtrip fl={} pad={} T={} M={} R={} I={} N={} U={} X={} S={} D={} Y={} H={}",
             self.flags,
             self.pad as u8,
             t.join(";"),
@@ -513,13 +609,14 @@ impl Model {
             x,
             s,
             d.join(";"),
-            y
+            y,
+            h
         )
     }
 
     fn parse(case: &str) -> Option<Model> {
         let f: Vec<&str> = case.split(' ').collect();
-        if !(f.len() == 12 || f.len() == 13) || f[0] != "roundtrip" {
+        if f.len() < 12 || f[0] != "roundtrip" {
             return None;
         }
         let mut m = Model { flags: f[1].strip_prefix("fl=")?.parse().ok()?, ..Default::default() };
@@ -625,8 +722,15 @@ impl Model {
             [ty, b] => Some((ty.parse().ok()?, Blob::parse(b)?)),
             _ => None,
         })?;
-        if f.len() > 12 {
-            m.misc = Misc::parse(f[12].strip_prefix("Y=")?)?;
+        // the optional streams
+        for t in &f[12..] {
+            if let Some(y) = t.strip_prefix("Y=") {
+                m.misc = Misc::parse(y)?;
+            } else if let Some(h) = t.strip_prefix("H=") {
+                m.handles = Handles::parse(h)?;
+            } else {
+                return None;
+            }
         }
         Some(m)
     }
@@ -856,6 +960,67 @@ fn build_synth(m: &Model, be: bool, mem64: bool) -> Option<Vec<u8>> {
             stream_type: md::MINIDUMP_STREAM_TYPE::UnloadedModuleListStream as u32,
             section: Section::with_endian(e).D32(12).D32(24).D32(0),
         });
+    }
+    // handle data: descriptors of the first kind through synth's HandleDescriptor (ExList stream with a
+    // 16-byte header); the second kind (and an empty list) by hand: 40-byte descriptors citing the
+    // names and the first element of the object-information chain, each element citing the next
+    if let Some(hd) = &m.handles {
+        let mut entries: Vec<Section> = Vec::new();
+        for h in &hd.items {
+            let tn = h.type_name.as_ref().map(|n| synth::DumpString::new(&name_string(n), e));
+            let on = h.object_name.as_ref().map(|n| synth::DumpString::new(&name_string(n), e));
+            if !hd.v2 {
+                let desc = synth::HandleDescriptor::new(e, h.handle, tn.as_ref(), on.as_ref(), h.attributes, h.access, h.hcount, h.pcount);
+                d = d.add_handle_descriptor(desc);
+            } else {
+                // the chain, last element first so that each can cite its successor
+                let mut next: Option<test_assembler::Label> = None;
+                let mut secs = Vec::new();
+                for (ty, size) in h.infos.iter().rev() {
+                    let sec = Section::with_endian(e);
+                    let sec = match &next {
+                        None => sec.D32(0),
+                        Some(l) => sec.D32(l),
+                    };
+                    let sec = sec.D32(*ty).D32(*size);
+                    next = Some(synth::DumpSection::file_offset(&sec));
+                    secs.push(sec);
+                }
+                let sec = Section::with_endian(e).D64(h.handle);
+                let sec = match &tn {
+                    None => sec.D32(0),
+                    Some(t) => sec.D32(&synth::DumpSection::file_offset(t)),
+                };
+                let sec = match &on {
+                    None => sec.D32(0),
+                    Some(t) => sec.D32(&synth::DumpSection::file_offset(t)),
+                };
+                let sec = sec.D32(h.attributes).D32(h.access).D32(h.hcount).D32(h.pcount);
+                let sec = match &next {
+                    None => sec.D32(0),
+                    Some(l) => sec.D32(l),
+                };
+                entries.push(sec.D32(0));
+                // scatter the chain elements in the file in reverse order
+                for sec in secs {
+                    d = d.add(sec);
+                }
+            }
+            if let Some(t) = tn {
+                d = d.add(t);
+            }
+            if let Some(t) = on {
+                d = d.add(t);
+            }
+        }
+        if hd.v2 || hd.items.is_empty() {
+            let size: u32 = if hd.v2 { 40 } else { 32 };
+            let mut sec = Section::with_endian(e).D32(16).D32(size).D32(entries.len() as u32).D32(0);
+            for en in entries {
+                sec = sec.append_section(en);
+            }
+            d = d.add_stream(synth::SimpleStream { stream_type: md::MINIDUMP_STREAM_TYPE::HandleDataStream as u32, section: sec });
+        }
     }
     // misc info: through synth's MiscStream when it can express the model, else field by field
     if let Some(y) = &m.misc {
@@ -1270,6 +1435,37 @@ fn real_report(bytes: &[u8], ids: &[u32]) -> String {
         Err(e) => o.push_str(&err_name(&e)),
         Ok(mi) => o.push_str(&misc_text(&mi)),
     }
+    // handle data
+    o.push_str(" H=");
+    match dump.get_stream::<MinidumpHandleDataStream>() {
+        Err(e) => o.push_str(&err_name(&e)),
+        Ok(hs) => {
+            let items: Vec<String> = hs
+                .iter()
+                .map(|h| {
+                    let r = &h.raw;
+                    let infos: Vec<String> = h.object_infos.iter().map(|i| format!("{}:{}", i.raw.info_type, i.raw.size_of_info)).collect();
+                    let name = |n: &Option<String>| match n {
+                        None => "~".to_string(),
+                        Some(n) => name_text(&str_scalars(n)),
+                    };
+                    format!(
+                        "{},{},{},{},{},{},{},{},{}",
+                        if r.object_info_rva().is_some() { 2 } else { 1 },
+                        r.handle().copied().unwrap_or(0),
+                        name(&h.type_name),
+                        name(&h.object_name),
+                        r.attributes().copied().unwrap_or(0),
+                        r.granted_access().copied().unwrap_or(0),
+                        r.handle_count().copied().unwrap_or(0),
+                        r.pointer_count().copied().unwrap_or(0),
+                        infos.join("/")
+                    )
+                })
+                .collect();
+            let _ = write!(o, "[{}]", items.join(";"));
+        }
+    }
     o
 }
 
@@ -1508,6 +1704,32 @@ fn expected_report(m: &Model, be: bool, mem64: bool, as_code: bool) -> String {
             let _ = write!(o, " Y={}", out.join(";"));
         }
     }
+    match &m.handles {
+        None => o.push_str(" H=err StreamNotFound"),
+        Some(hd) => {
+            let items: Vec<String> = hd
+                .items
+                .iter()
+                .map(|h| {
+                    // only the second kind of descriptor has an object-information chain
+                    let infos: Vec<String> = if hd.v2 { h.infos.iter().map(|(t, s)| format!("{t}:{s}")).collect() } else { vec![] };
+                    format!(
+                        "{},{},{},{},{},{},{},{},{}",
+                        if hd.v2 { 2 } else { 1 },
+                        h.handle,
+                        opt_name_text(&h.type_name),
+                        opt_name_text(&h.object_name),
+                        h.attributes,
+                        h.access,
+                        h.hcount,
+                        h.pcount,
+                        infos.join("/")
+                    )
+                })
+                .collect();
+            let _ = write!(o, " H=[{}]", items.join(";"));
+        }
+    }
     o
 }
 
@@ -1700,7 +1922,7 @@ impl Engine for Roundtrip {
             // report comparison above decides: a raw extra served in its place would be reported
             // instead of the model's items. For any other type the LAST extra of that type is served.
             if let Ok(dump) = Minidump::<&[u8]>::read(&bytes[..]) {
-                let core = |ty: u32| [3u32, 4, 5, 9, 16, 24, 14].contains(&ty) || (ty == 6 && m.exc.is_some()) || (ty == 7 && m.sys.is_some()) || (ty == 15 && m.misc.is_some());
+                let core = |ty: u32| [3u32, 4, 5, 9, 16, 24, 14].contains(&ty) || (ty == 6 && m.exc.is_some()) || (ty == 7 && m.sys.is_some()) || (ty == 15 && m.misc.is_some()) || (ty == 12 && m.handles.is_some());
                 let mut seen = Vec::new();
                 for (ty, _) in m.extra.iter() {
                     if core(*ty) || seen.contains(ty) {
@@ -1769,6 +1991,13 @@ impl Engine for Roundtrip {
         }
         if top_region(&m) {
             res.tags.push("region-at-top".into());
+        }
+        match &m.handles {
+            None => res.tags.push("handles:none".into()),
+            Some(h) => {
+                res.tags.push(format!("handles:v{}:{}", if h.v2 { 2 } else { 1 }, bucket(h.items.len())));
+                res.tags.push(format!("handle-infos:{}", bucket(h.items.iter().map(|x| x.infos.len()).max().unwrap_or(0))));
+            }
         }
         match &m.misc {
             None => res.tags.push("misc:none".into()),
@@ -1857,13 +2086,30 @@ impl Engine for Roundtrip {
         shrink_list!(names);
         shrink_list!(unloaded);
         shrink_list!(extra);
-        for f in 0..5 {
+        if let Some(h) = &m.handles {
+            let mut i = 0;
+            let mut cur = h.clone();
+            while i < cur.items.len() {
+                let mut c = m.clone();
+                let mut hc = cur.clone();
+                hc.items.remove(i);
+                c.handles = Some(hc.clone());
+                if still_fails(&c.line()) {
+                    m = c;
+                    cur = hc;
+                } else {
+                    i += 1;
+                }
+            }
+        }
+        for f in 0..6 {
             let mut c = m.clone();
             match f {
                 0 => c.exc = None,
                 1 => c.sys = None,
                 2 => c.pad = false,
                 3 => c.misc = None,
+                4 => c.handles = None,
                 _ => c.flags = 0,
             }
             if c != m && still_fails(&c.line()) {
@@ -2233,12 +2479,36 @@ fn gen_model(rng: &mut Rng, tier: Tier, k: usize) -> Model {
         }
         m.misc = Some(Misc { ver: ver as u8, tail, vals });
     }
+    // handle data: both descriptor kinds, absent / empty / non-BMP names, chains of 0..5 object infos
+    if rng.chance(1, 2) {
+        let v2 = rng.chance(1, 2);
+        let n = count(rng);
+        let mut items = Vec::new();
+        for _ in 0..n {
+            let opt = |rng: &mut Rng| if rng.chance(1, 3) { None } else { Some(rand_name(rng, 16)) };
+            let ninfo = if rng.chance(1, 2) { 0 } else { rng.below(6) };
+            items.push(Handle {
+                handle: rand_u64(rng),
+                type_name: opt(rng),
+                object_name: opt(rng),
+                attributes: rand_u32(rng),
+                access: rand_u32(rng),
+                hcount: rand_u32(rng),
+                pcount: rand_u32(rng),
+                infos: (0..ninfo).map(|_| (rng.below(10) as u32, rand_u32(rng))).collect(),
+            });
+        }
+        m.handles = Some(Handles { v2, items });
+    }
     // duplicate directory entries: raw streams under types that occur again later, and foreign types
     if rng.chance(1, 3) {
         for _ in 0..1 + rng.below(3) {
             let mut tys = vec![3u32, 4, 16, 24, 14, 0x4767_0001, 0xffff_0000, 21];
             if m.misc.is_some() {
                 tys.push(15);
+            }
+            if m.handles.is_some() {
+                tys.push(12);
             }
             if m.exc.is_some() {
                 tys.push(6);
